@@ -168,9 +168,9 @@ for cls, f, three in [("ReservableReqStore", "base/reservable_req_store.py", Fal
                       ("ReservablePriorityReqFilterStore", "base/reservable_priority_req_filter_store.py", False),
                       ("BufferStore", "base/buffer_store.py", True),
                       ("FleetStore", "base/fleet_store.py", True)]:
-    frag("%s_admit_put" % cls, f, lambda t, c=cls: Tr().b(first_if_test(find(t, c, "_do_reserve_put"))),
+    frag("%s_allow_put" % cls, f, lambda t, c=cls: Tr().b(first_if_test(find(t, c, "_do_reserve_put"))),
          ADM_PUT3 if three else ADM_PUT2)
-    frag("%s_admit_get" % cls, f, lambda t, c=cls: Tr().b(first_if_test(find(t, c, "_do_reserve_get"))),
+    frag("%s_allow_get" % cls, f, lambda t, c=cls: Tr().b(first_if_test(find(t, c, "_do_reserve_get"))),
          "(n_reservations_get l <? n_ready_items l)" if three else "(n_reservations_get l <? n_items l)")
     frag("%s_put_room" % cls, f, lambda t, c=cls: Tr().b(second_test_of_do_put(find(t, c, "_do_put"))),
          "(n_items l + n_ready_items l <? capacity l)" if three else "(n_items l <? capacity l)")
